@@ -4,6 +4,7 @@ from ..e1 import Harness
 PROP_ID = "C08"
 FEATURE = "c08"
 ENGINE = "E1 kani-cbmc"
+QUICK_MAX_S = 135
 FUNCTIONS = ["edp_client::control::ControlMessage::{from_term, to_term, into_term}",
              "ControlMessageType::{from_u8, TryFrom<u8>}", "derived Clone of OwnedTerm on the element vector"]
 ASSUMPTIONS = ["std::fmt::format stubbed to String::new() (error message text only)",
